@@ -1,7 +1,7 @@
 (* Authz.v — model of user authorization on a hop server (C05) and of what a session admitted
    through authorization grants may start (C07).  Definitions only.
 
-   Transcribed Go code (hop-go, after the two `fix:` commits named in docs/C05.md / docs/C07.md):
+   Transcribed Go code (hop-go, after the four `fix:` commits named in docs/C05.md / docs/C07.md):
      core/authorized_keys.go   ParseAuthorizedKeys (bufio.Scanner + strings.TrimSpace + keys.ParseDHPublicKey), Allowed
      hopserver/hopserver.go    AuthorizeKey, AddAuthGrant
      hopserver/target.go       AuthorizeKeyAuthGrant, checkCmd, checkIntent
@@ -341,7 +341,20 @@ Definition set_actions (s : sess) (a : list grant) := mkSess (s_user s) (s_key s
 Section Step.
   Variable parse : bytes -> option key.
 
-  Definition step (st : state) (o : op) : state * list event :=
+  (* `gated` = the code after the two fixes that refuse authgrant tubes and port forwarding for a
+     session admitted through grants (handleAgc, startPF / handlePF test usingAuthGrant first);
+     gated = false is the tube switch as it was, kept for the refutation witnesses. *)
+  Variable gated : bool.
+
+  (* which handler effectively serves a tube: startPF / handlePF close it for a grant session *)
+  Definition tube_outcome (s : sess) (ty : N) (reliable : bool) : handler :=
+    match dispatch s ty reliable with
+    | HStartPF => if gated && s_using s then HClose else HStartPF
+    | HHandlePF => if gated && s_using s then HClose else HHandlePF
+    | h => h
+    end.
+
+  Definition step_gen (st : state) (o : op) : state * list event :=
     match o with
     | OSetFile u f => (set_files st ((u, f) :: st_files st), [EvSetFile u f])
     | OEnable b => (set_enabled st b, [EvEnable b])
@@ -383,7 +396,10 @@ Section Step.
         | None => (st, [EvNoSession sid])
         | Some s =>
             match dispatch s 5 true with
-            | HStartPF => (st, [EvStart sid APF t None])        (* startPF: no grant is consulted *)
+            | HStartPF =>
+                (* startPF: refused for a grant session (no grant can authorize forwarding yet) *)
+                if gated && s_using s then (st, [EvRefuse sid APF t])
+                else (st, [EvStart sid APF t None])
             | h => (st, [EvTube sid h])
             end
         end
@@ -393,8 +409,9 @@ Section Step.
         | Some s =>
             match dispatch s 2 true with
             | HAgc =>
-                (* handleAgc: no grant is consulted *)
-                if negb (st_enabled st) then (st, [EvRefuse sid (AIssue i) wall])
+                (* handleAgc: a grant session is refused first, then the coarse enable switch *)
+                if gated && s_using s then (st, [EvRefuse sid (AIssue i) wall])
+                else if negb (st_enabled st) then (st, [EvRefuse sid (AIssue i) wall])
                 else if check_intent s i cert_ok wall then
                        match add_auth_grant st (Some i) with
                        | (st', Some g) => (st', [EvAdded g (i_user i) (i_key i); EvStart sid (AIssue i) wall None])
@@ -407,16 +424,23 @@ Section Step.
     | OTube sid ty reliable =>
         match nth_sess (st_sess st) sid with
         | None => (st, [EvNoSession sid])
-        | Some s => (st, [EvTube sid (dispatch s ty reliable)])
+        | Some s => (st, [EvTube sid (tube_outcome s ty reliable)])
         end
     end.
 
-  Definition exec1 (x : state * list event) (o : op) : state * list event :=
-    let (st', evs) := step (fst x) o in (st', snd x ++ evs).
-  Definition run (ops : list op) : state * list event := fold_left exec1 ops (init_state, []).
-  Definition trace (ops : list op) : list event := snd (run ops).
-  Definition final (ops : list op) : state := fst (run ops).
+  Definition exec1_gen (x : state * list event) (o : op) : state * list event :=
+    let (st', evs) := step_gen (fst x) o in (st', snd x ++ evs).
+  Definition run_gen (ops : list op) : state * list event := fold_left exec1_gen ops (init_state, []).
 End Step.
+
+(* the code as it is *)
+Definition step (parse : bytes -> option key) := step_gen parse true.
+Definition exec1 (parse : bytes -> option key) := exec1_gen parse true.
+Definition run (parse : bytes -> option key) (ops : list op) : state * list event := run_gen parse true ops.
+Definition trace (parse : bytes -> option key) (ops : list op) : list event := snd (run parse ops).
+Definition final (parse : bytes -> option key) (ops : list op) : state := fst (run parse ops).
+(* the tube switch before the two fixes *)
+Definition trace_orig (parse : bytes -> option key) (ops : list op) : list event := snd (run_gen parse false ops).
 
 (* ------------------------------------------------------------------------------------------ *)
 (* 5. specification: what a trace must satisfy (declarative functions of the trace only)       *)
